@@ -319,6 +319,22 @@ macro_rules! c14_for_crate {
             pub fn c14_port_0022() {
                 check_port::<0, 0, 2, 2>()
             }
+            // ---- deeper list bounds (thorough tier) ----
+            #[kani::proof]
+            #[kani::unwind(20)]
+            pub fn c14_port_3300() {
+                check_port::<3, 3, 0, 0>()
+            }
+            #[kani::proof]
+            #[kani::unwind(20)]
+            pub fn c14_port_0033() {
+                check_port::<0, 0, 3, 3>()
+            }
+            #[kani::proof]
+            #[kani::unwind(20)]
+            pub fn c14_port_2222() {
+                check_port::<2, 2, 2, 2>()
+            }
             // ---- address filter shapes (v4 count, v6 count) ----
             #[kani::proof]
             #[kani::unwind(20)]
